@@ -203,6 +203,16 @@ def h_generators(P, gen, n_pop, d=1):
                 P.oblige("bestperdeme.is_current_best", not_worse(c.individuals[0].fitness, y.fitness, maximize))
         else:
             P.oblige("nbc_generator.mean_distance_exported", c.features.nbc_mean_distance is not None)
+            # the exported feature is the mean nearest-better distance of THIS deme's own current population
+            from pyhms.utils.clusterization import NearestBetterClustering
+            own = NearestBetterClustering(pop, 2.0, 1.0)
+            own.cluster()
+            ds = own.distances
+            if ds:
+                total = ds[0]
+                for x in ds[1:]:
+                    total = total + x
+                P.oblige("nbc_generator.mean_distance_of_own_population", c.features.nbc_mean_distance == total / float(len(ds)))
 
 
 def h_first_round(P, n, L):
